@@ -3,6 +3,7 @@ C08 — OID arcs: base-128 value lemmas (sidHi / sidLen invert the scanning loop
 print/parse lemmas.
 -/
 import Bee2V.C08.LemmasTyped
+import Bee2V.C08.LemmasText
 namespace Bee2V.C08
 
 /-- value of a run of base-128 octets (flags ignored) on top of acc -/
@@ -133,6 +134,504 @@ theorem derSIDEnc_of_inv {P : List UInt8} {val : Nat} (h : SidInv P val) (x : UI
     rw [if_neg (by omega), sidLen_mul_add hvnz _ hx]
     simp only [Nat.add_sub_cancel_left]
     rw [hvl, hv]
-    exact sidHi_sidVal _ (p :: ps) (by simp; omega) hall
+    rw [sidHi_sidVal (1 + ps.length) (p :: ps) (by simp; omega) hall]
+
+/-! ### decimal print / parse -/
+
+theorem decLen_small {v : Nat} (h : v < 10) : decLen v = 1 := by rw [decLen, dif_pos h]
+theorem decLen_big {v : Nat} (h : ¬ v < 10) : decLen v = 1 + decLen (v / 10) := by rw [decLen, dif_neg h]
+
+theorem derSIDDec_small {v : Nat} (h : v < 10) : derSIDDec v = [oct (48 + v)] := by
+  unfold derSIDDec
+  rw [decLen_small h]
+  simp [decChars, Nat.mod_eq_of_lt h]
+
+theorem derSIDDec_big {v : Nat} (h : ¬ v < 10) : derSIDDec v = derSIDDec (v / 10) ++ [oct (48 + v % 10)] := by
+  unfold derSIDDec
+  rw [decLen_big h, Nat.add_comm, decChars]
+
+theorem digit_toNat (d : Nat) (h : d < 10) : (oct (48 + d)).toNat = 48 + d := by
+  rw [toNat_oct]; omega
+
+/-- the encoder's digit loop reads back a printed number -/
+theorem oidEncLoop_digits (v : Nat) (hv : v < U32) (tail : List UInt8) (d1 : Nat) (acc : List UInt8) :
+    oidEncLoop (derSIDDec v ++ tail) d1 0 acc = oidEncLoop tail d1 v acc := by
+  induction v using Nat.strongRecOn generalizing tail with
+  | _ v ih =>
+    by_cases h : v < 10
+    · rw [derSIDDec_small h]
+      simp only [List.cons_append, List.nil_append]
+      rw [oidEncLoop]
+      rw [if_neg (by rw [digit_toNat v h]; omega), digit_toNat v h]
+      congr 1
+      omegaW
+    · rw [derSIDDec_big h, List.append_assoc, ih (v / 10) (by omega) (by omegaW)]
+      simp only [List.cons_append, List.nil_append]
+      rw [oidEncLoop]
+      have hd : v % 10 < 10 := Nat.mod_lt _ (by omega)
+      rw [if_neg (by rw [digit_toNat _ hd]; omega), digit_toNat _ hd]
+      congr 1
+      omegaW
+
+/-- first character of a printed number -/
+def firstDigit (v : Nat) : Nat := (derSIDDec v).headD 0 |>.toNat
+
+theorem firstDigit_big {v : Nat} (h : ¬ v < 10) : firstDigit v = firstDigit (v / 10) := by
+  unfold firstDigit
+  rw [derSIDDec_big h]
+  have : derSIDDec (v / 10) ≠ [] := by
+    unfold derSIDDec
+    intro hc
+    have := congrArg List.length hc
+    rw [decChars_length] at this
+    have : 1 ≤ decLen (v / 10) := by
+      by_cases h2 : v / 10 < 10
+      · rw [decLen_small h2]; omega
+      · rw [decLen_big h2]; omega
+    simp at *; omega
+  cases hd : derSIDDec (v / 10) with
+  | nil => exact absurd hd this
+  | cons a t => simp
+
+theorem firstDigit_nonzero {v : Nat} (h : ¬ v < 10) : firstDigit v ≠ 48 := by
+  induction v using Nat.strongRecOn with
+  | _ v ih =>
+    rw [firstDigit_big h]
+    by_cases h2 : v / 10 < 10
+    · unfold firstDigit
+      rw [derSIDDec_small h2]
+      simp only [List.headD_cons]
+      rw [digit_toNat _ h2]; omega
+    · exact ih (v / 10) (by omega) h2
+
+/-- the validity automaton over one printed number: all digit checks pass (no leading zero, no overflow) -/
+theorem oidLoop_digits (v : Nat) (hv : v < U32) (tail : List UInt8) (d1 n : Nat) :
+    oidLoop (derSIDDec v ++ tail) 0 d1 0 n 0 = oidLoop tail v d1 (decLen v) n (firstDigit v) := by
+  induction v using Nat.strongRecOn generalizing tail with
+  | _ v ih =>
+    by_cases h : v < 10
+    · rw [derSIDDec_small h, decLen_small h]
+      simp only [List.cons_append, List.nil_append]
+      rw [oidLoop]
+      have hd := digit_toNat v h
+      rw [if_neg (by rw [hd]; omega)]
+      rw [if_neg (by rw [hd]; omegaW)]
+      simp only [if_true, hd]
+      unfold firstDigit
+      rw [derSIDDec_small h]
+      simp only [List.headD_cons, hd]
+      congr 1
+      omegaW
+    · rw [derSIDDec_big h, List.append_assoc, ih (v / 10) (by omega) (by omegaW), decLen_big h]
+      simp only [List.cons_append, List.nil_append]
+      rw [oidLoop]
+      have hd10 : v % 10 < 10 := Nat.mod_lt _ (by omega)
+      have hd := digit_toNat _ hd10
+      rw [if_neg (by rw [hd]; omega)]
+      have hlen1 : 1 ≤ decLen (v / 10) := by
+        by_cases h2 : v / 10 < 10
+        · rw [decLen_small h2]; omega
+        · rw [decLen_big h2]; omega
+      have hfd : decLen (v / 10) = 1 → firstDigit (v / 10) ≠ 48 := by
+        intro h1
+        have hlt : v / 10 < 10 := by
+          apply Classical.byContradiction; intro hc
+          rw [decLen_big hc] at h1
+          have : 1 ≤ decLen (v / 10 / 10) := by
+            by_cases h2 : v / 10 / 10 < 10
+            · rw [decLen_small h2]; omega
+            · rw [decLen_big h2]; omega
+          omega
+        unfold firstDigit
+        rw [derSIDDec_small hlt]
+        simp only [List.headD_cons]
+        rw [digit_toNat _ hlt]; omega
+      rw [if_neg (by
+        rw [hd]
+        intro hc
+        rcases hc with hc | hc | hc | hc | hc
+        · omega
+        · omega
+        · exact hfd hc.1 hc.2
+        · omegaW
+        · omegaW)]
+      rw [if_neg (by omega), firstDigit_big h, hd]
+      congr 1
+      · omegaW
+      · omega
+
+
+/-! ### the scanning loop on lists -/
+
+/-- the sid loop of derOIDDec over the value octets as a list -/
+def oidScan : List UInt8 → Nat → Nat → List UInt8 → R (Nat × List UInt8)
+  | [], _, d1, out => .ok (d1, out)
+  | x :: V, val, d1, out =>
+    if val / 33554432 ≠ 0 then .err else
+    if val = 0 ∧ x.toNat = 128 then .err else
+    if x.toNat / 128 = 0 then
+      if d1 = 3 then
+        oidScan V 0 0 (out ++ derSIDDec (if (val * 128 + x.toNat % 128) % U32 < 40 then 0 else if (val * 128 + x.toNat % 128) % U32 < 80 then 1 else 2)
+          ++ [46] ++ derSIDDec (if (val * 128 + x.toNat % 128) % U32 < 40 then (val * 128 + x.toNat % 128) % U32
+            else if (val * 128 + x.toNat % 128) % U32 < 80 then (val * 128 + x.toNat % 128) % U32 - 40 else (val * 128 + x.toNat % 128) % U32 - 80))
+      else oidScan V 0 d1 (out ++ [46] ++ derSIDDec ((val * 128 + x.toNat % 128) % U32))
+    else oidScan V ((val * 128 + x.toNat % 128) % U32) d1 out
+
+theorem oidDecLoop_eq_scan (der : List UInt8) (off l : Nat) (h : off + l ≤ der.length) :
+    ∀ n pos val d1 out, n = l - pos →
+    oidDecLoop der off l pos val d1 out = oidScan ((der.drop (off + pos)).take (l - pos)) val d1 out := by
+  intro n
+  induction n with
+  | zero =>
+    intro pos val d1 out hn
+    rw [oidDecLoop, dif_neg (by omega), ← hn, List.take_zero, oidScan]
+  | succ n ih =>
+    intro pos val d1 out hn
+    have hi : off + pos < der.length := by omega
+    rw [oidDecLoop, dif_pos (by omega), List.drop_eq_getElem_cons hi, show l - pos = (l - (pos + 1)) + 1 by omega,
+      List.take_succ_cons, oidScan, rd_of_lt hi]
+    by_cases h1 : val / 33554432 ≠ 0
+    · rw [if_pos h1, if_pos h1]
+    · rw [if_neg h1, if_neg h1]
+      simp only []
+      by_cases h2 : val = 0 ∧ der[off + pos].toNat = 128
+      · rw [if_pos h2, if_pos h2]
+      · rw [if_neg h2, if_neg h2]
+        by_cases h3 : der[off + pos].toNat / 128 = 0
+        · rw [if_pos h3, if_pos h3]
+          by_cases h4 : d1 = 3
+          · rw [if_pos h4, if_pos h4, ih (pos + 1) _ _ _ (by omega), show off + pos + 1 = off + (pos + 1) by omega]
+          · rw [if_neg h4, if_neg h4, ih (pos + 1) _ _ _ (by omega), show off + pos + 1 = off + (pos + 1) by omega]
+        · rw [if_neg h3, if_neg h3, ih (pos + 1) _ _ _ (by omega), show off + pos + 1 = off + (pos + 1) by omega]
+
+
+/-- the arc the encoder emits for the number just read: `if (d1 != 3) val += 40 * d1` -/
+def adj (dd prev : Nat) : Nat := if dd ≠ 3 then (prev + 40 * dd) % U32 else prev
+
+/-- the value octets end with a complete arc (or are empty) -/
+def EndsOk (xs : List UInt8) : Prop := xs = [] ∨ ∃ init last, xs = init ++ [last] ∧ last.toNat < 128
+
+theorem oidEncLoop_nil (dd prev : Nat) (acc : List UInt8) : oidEncLoop [] dd prev acc = acc ++ derSIDEnc (adj dd prev) := by
+  rw [oidEncLoop]; rfl
+
+theorem oidEncLoop_dot (rest : List UInt8) (dd prev : Nat) (acc : List UInt8) :
+    oidEncLoop (46 :: rest) dd prev acc = oidEncLoop rest 3 0 (acc ++ derSIDEnc (adj dd prev)) := by
+  rw [oidEncLoop]; rfl
+
+theorem oidLoop_end_ok (pv d1v pos n c0 : Nat) (hp : pos ≠ 0) (hn : n ≥ 1)
+    (hc : n = 1 → (d1v < 2 → pv < 40) ∧ pv ≤ U32_MAX - 40 * d1v) : oidLoop [] pv d1v pos n c0 = true := by
+  rw [oidLoop]
+  rw [if_neg]
+  · simp; omega
+  · intro h
+    rcases h with h | h | h | h
+    · exact hp h
+    · omega
+    · have := hc h.1; omega
+    · have := hc h.1; omega
+
+theorem oidLoop_dot (rest : List UInt8) (pv d1v pos n c0 : Nat) (hp : pos ≠ 0) (hn : n ≥ 1)
+    (hc : n = 1 → (d1v < 2 → pv < 40) ∧ pv ≤ U32_MAX - 40 * d1v) :
+    oidLoop (46 :: rest) pv d1v pos n c0 = oidLoop rest 0 d1v 0 (n + 1) 0 := by
+  rw [oidLoop]
+  simp only [show (46 : UInt8).toNat = 46 from rfl, if_true]
+  rw [if_neg, if_neg (by omega)]
+  intro h
+  rcases h with h | h | h | h
+  · exact hp h
+  · omega
+  · have := hc h.1; omega
+  · have := hc h.1; omega
+
+theorem EndsOk_tail (P : List UInt8) (x : UInt8) (V : List UInt8) (h : EndsOk (P ++ x :: V)) : EndsOk V := by
+  rcases h with h | ⟨init, last, h, hl⟩
+  · simp at h
+  · rcases List.eq_nil_or_concat V with hv | ⟨V', y, hv⟩
+    · left; exact hv
+    · right
+      subst hv
+      rw [List.concat_eq_append] at h ⊢
+      refine ⟨V', y, rfl, ?_⟩
+      have : (P ++ x :: (V' ++ [y])) = (P ++ x :: V') ++ [y] := by simp
+      rw [this] at h
+      have := List.append_inj' h rfl
+      simp at this
+      rw [this.2]; exact hl
+
+theorem EndsOk_all_hi (P : List UInt8) (hall : ∀ b ∈ P, 128 ≤ b.toNat) (h : EndsOk P) : P = [] := by
+  rcases h with h | ⟨init, last, h, hl⟩
+  · exact h
+  · have := hall last (by rw [h]; simp)
+    omega
+
+set_option maxRecDepth 4000 in
+/-- the loop after the first arc: what it appends to the string is read back by the encoder loop as
+    exactly the octets it scanned, and passes the validity automaton -/
+theorem scan_rest (V : List UInt8) : ∀ (P : List UInt8) (val : Nat) (out : List UInt8) (d1f : Nat) (outf : List UInt8),
+    SidInv P val → oidScan V val 0 out = .ok (d1f, outf) → EndsOk (P ++ V) →
+    d1f = 0 ∧ ∃ suf, outf = out ++ suf ∧
+      (∀ dd prev acc, oidEncLoop suf dd prev acc = acc ++ derSIDEnc (adj dd prev) ++ (P ++ V)) ∧
+      (∀ pv d1v pos n c0, pos ≠ 0 → n ≥ 1 → (n = 1 → (d1v < 2 → pv < 40) ∧ pv ≤ U32_MAX - 40 * d1v) →
+        oidLoop suf pv d1v pos n c0 = true) := by
+  induction V with
+  | nil =>
+    intro P val out d1f outf hinv hs hend
+    rw [oidScan] at hs
+    cases hs
+    have hP : P = [] := EndsOk_all_hi P hinv.2.1 (by simpa using hend)
+    subst hP
+    refine ⟨rfl, [], by simp, ?_, ?_⟩
+    · intro dd prev acc; rw [oidEncLoop_nil]; simp
+    · intro pv d1v pos n c0 hp hn hc; exact oidLoop_end_ok pv d1v pos n c0 hp hn hc
+  | cons x V ih =>
+    intro P val out d1f outf hinv hs hend
+    rw [oidScan] at hs
+    by_cases h1 : val / 33554432 ≠ 0
+    · rw [if_pos h1] at hs; cases hs
+    · rw [if_neg h1] at hs
+      by_cases h2 : val = 0 ∧ x.toNat = 128
+      · rw [if_pos h2] at hs; cases hs
+      · rw [if_neg h2] at hs
+        have hx := UInt8.toNat_lt x
+        have hmod : (val * 128 + x.toNat % 128) % U32 = val * 128 + x.toNat % 128 := by omegaW
+        rw [hmod] at hs
+        by_cases h3 : x.toNat / 128 = 0
+        · -- the arc is complete
+          rw [if_pos h3, if_neg (by omega)] at hs
+          have hxl : x.toNat < 128 := by omega
+          have hxm : x.toNat % 128 = x.toNat := by omega
+          rw [hxm] at hs
+          have hsid := derSIDEnc_of_inv hinv x hxl
+          obtain ⟨hd, suf', houtf, henc, hval⟩ := ih [] 0 _ d1f outf SidInv_nil hs (by simpa using EndsOk_tail P x V hend)
+          refine ⟨hd, 46 :: derSIDDec (val * 128 + x.toNat) ++ suf', by rw [houtf]; simp, ?_, ?_⟩
+          · intro dd prev acc
+            rw [List.cons_append, oidEncLoop_dot, oidEncLoop_digits _ (by omegaW), henc]
+            simp only [adj, if_false, ne_eq, not_true_eq_false, List.nil_append]
+            rw [hsid]; simp
+          · intro pv d1v pos n c0 hp hn hc
+            rw [List.cons_append, oidLoop_dot _ pv d1v pos n c0 hp hn hc, oidLoop_digits _ (by omegaW)]
+            apply hval
+            · have : 1 ≤ decLen (val * 128 + x.toNat) := by
+                by_cases h : val * 128 + x.toNat < 10
+                · rw [decLen_small h]; omega
+                · rw [decLen_big h]; omega
+              omega
+            · omega
+            · intro h; omega
+        · rw [if_neg h3] at hs
+          have hxh : 128 ≤ x.toNat := by omega
+          have hinv' := SidInv_snoc hinv x hxh h2
+          obtain ⟨hd, suf, houtf, henc, hval⟩ := ih (P ++ [x]) _ out d1f outf hinv' hs (by simpa using hend)
+          refine ⟨hd, suf, houtf, ?_, hval⟩
+          intro dd prev acc
+          rw [henc]; simp
+
+
+set_option maxRecDepth 4000 in
+/-- the loop up to and including the first arc (d1 = 3) followed by the rest -/
+theorem scan_first (V : List UInt8) : ∀ (P : List UInt8) (val : Nat) (d1f : Nat) (outf : List UInt8),
+    SidInv P val → oidScan V val 3 [] = .ok (d1f, outf) → EndsOk (P ++ V) → d1f ≠ 3 →
+    ∃ d rest, d ≤ 2 ∧ outf = oct (48 + d) :: 46 :: rest ∧ oidEncLoop rest d 0 [] = P ++ V ∧
+      oidLoop (oct (48 + d) :: 46 :: rest) 0 0 0 0 0 = true := by
+  induction V with
+  | nil =>
+    intro P val d1f outf hinv hs hend hd
+    rw [oidScan] at hs; cases hs; exact absurd rfl hd
+  | cons x V ih =>
+    intro P val d1f outf hinv hs hend hd
+    rw [oidScan] at hs
+    by_cases h1 : val / 33554432 ≠ 0
+    · rw [if_pos h1] at hs; cases hs
+    · rw [if_neg h1] at hs
+      by_cases h2 : val = 0 ∧ x.toNat = 128
+      · rw [if_pos h2] at hs; cases hs
+      · rw [if_neg h2] at hs
+        have hx := UInt8.toNat_lt x
+        have hmod : (val * 128 + x.toNat % 128) % U32 = val * 128 + x.toNat % 128 := by omegaW
+        rw [hmod] at hs
+        by_cases h3 : x.toNat / 128 = 0
+        · rw [if_pos h3, if_pos rfl] at hs
+          have hxl : x.toNat < 128 := by omega
+          have hxm : x.toNat % 128 = x.toNat := by omega
+          rw [hxm] at hs
+          have hsid := derSIDEnc_of_inv hinv x hxl
+          generalize hX : val * 128 + x.toNat = X at hs hsid
+          have hXlt : X < U32 := by omegaW
+          generalize hdd : (if X < 40 then 0 else if X < 80 then 1 else 2) = d at hs
+          generalize hvd : (if X < 40 then X else if X < 80 then X - 40 else X - 80) = vd at hs
+          have hd2 : d ≤ 2 := by rw [← hdd]; split <;> (try split) <;> omega
+          have hrel : vd + 40 * d = X ∧ (d < 2 → vd < 40) := by
+            rw [← hdd, ← hvd]; split <;> (try split) <;> omega
+          have hdec : derSIDDec d = [oct (48 + d)] := derSIDDec_small (by omega)
+          rw [hdec] at hs
+          obtain ⟨_, suf, houtf, henc, hval⟩ := scan_rest V [] 0 _ d1f outf SidInv_nil hs (by simpa using EndsOk_tail P x V hend)
+          refine ⟨d, derSIDDec vd ++ suf, hd2, by rw [houtf]; simp, ?_, ?_⟩
+          · rw [oidEncLoop_digits _ (by omegaW), henc]
+            have : adj d vd = X := by unfold adj; rw [if_pos (by omega)]; omegaW
+            rw [this, hsid]; simp
+          · rw [oidLoop]
+            have hdg := digit_toNat d (by omega)
+            rw [if_neg (by rw [hdg]; omega), if_neg (by rw [hdg]; omegaW)]
+            simp only [if_true, hdg]
+            rw [oidLoop]
+            simp only [show (46 : UInt8).toNat = 46 from rfl, if_true]
+            rw [if_neg (by omegaW)]
+            rw [oidLoop_digits _ (by omegaW)]
+            apply hval
+            · have : 1 ≤ decLen vd := by
+                by_cases h : vd < 10
+                · rw [decLen_small h]; omega
+                · rw [decLen_big h]; omega
+              omega
+            · omega
+            · intro _
+              have hd' : (0 * 10 + (48 + d - 48)) % U32 = d := by omegaW
+              rw [hd']
+              exact ⟨hrel.2, by omegaW⟩
+        · rw [if_neg h3] at hs
+          have hxh : 128 ≤ x.toNat := by omega
+          have hinv' := SidInv_snoc hinv x hxh h2
+          obtain ⟨d, rest, hd2, houtf, henc, hvalid⟩ := ih (P ++ [x]) _ d1f outf hinv' hs (by simpa using hend) hd
+          exact ⟨d, rest, hd2, houtf, by rw [henc]; simp, hvalid⟩
+
+
+theorem take_last_snoc (V : List UInt8) (l : Nat) (hl : V.length = l) (h1 : 1 ≤ l) :
+    V = V.take (l - 1) ++ [V[l - 1]'(by omega)] := by
+  have := take_dropLast_snoc V (l - 1) (by omega)
+  exact this.symm
+
+set_option maxRecDepth 4000 in
+/-- CANONICAL (OID): the accepted octets are exactly derOIDEnc of the decoded dotted string -/
+theorem derOIDDec_canonical' (der : List UInt8) (hlen : der.length < W) (s : List UInt8) (c : Nat)
+    (h : derOIDDec der = .ok (s, c)) : derOIDEnc s = .ok (der.take c) := by
+  unfold derOIDDec at h
+  rcases derDec2_cases der 6 hlen with e | ⟨off, l, c', e, ed, _, _, hc, hcl⟩
+  · rw [e] at h; cases h
+  · rw [e] at h; simp only [] at h
+    rcases oidDecLoop_cases der off l 0 0 3 [] (by omega) with e2 | ⟨d1, out, e2⟩
+    · rw [e2] at h; cases h
+    · rw [e2] at h; simp only [] at h
+      by_cases hd : d1 = 3
+      · rw [if_pos hd] at h; cases h
+      · rw [if_neg hd] at h
+        have hl1 : 1 ≤ l := by
+          apply Classical.byContradiction; intro hc0
+          have hz : l = 0 := by omega
+          subst hz
+          rw [oidDecLoop] at e2
+          simp at e2
+          omega
+        rw [rd_of_lt (xs := der) (i := off + (l - 1)) (by omega)] at h; simp only [] at h
+        by_cases hlast : der[off + (l - 1)].toNat / 128 ≠ 0
+        · rw [if_pos hlast] at h; cases h
+        · rw [if_neg hlast] at h; cases h
+          -- the value octets as a list
+          have hscan := oidDecLoop_eq_scan der off l (by omega) l 0 0 3 [] (by omega)
+          rw [e2, Nat.add_zero, Nat.sub_zero] at hscan
+          generalize hV : (der.drop off).take l = V at hscan
+          have hVl : V.length = l := by rw [← hV]; simp [List.length_take]; omega
+          have hVlast : V[l - 1]'(by omega) = der[off + (l - 1)] := by
+            simp only [← hV, List.getElem_take, List.getElem_drop]
+          have hend : EndsOk ([] ++ V) := by
+            right
+            refine ⟨V.take (l - 1), V[l - 1]'(by omega), ?_, ?_⟩
+            · simpa using take_last_snoc V l hVl hl1
+            · rw [hVlast]; have := UInt8.toNat_lt der[off + (l - 1)]; omega
+          obtain ⟨d, rest, hd2, hout, henc, hvalid⟩ := scan_first V [] 0 d1 s SidInv_nil hscan.symm hend hd
+          unfold derOIDEnc
+          have hv : oidIsValid s = true := by unfold oidIsValid; rw [hout]; exact hvalid
+          rw [hv]
+          simp only [Bool.not_true, Bool.false_eq_true, if_false]
+          rw [hout]
+          simp only []
+          have hdg : (oct (48 + d)).toNat - 48 = d := by rw [digit_toNat d (by omega)]; omega
+          rw [hdg, henc, List.nil_append, ← hV]
+          exact derDec_canonical' der hlen 6 off l c ed
+
+
+/-! ### round trip: scanning encoded arcs, parsing valid strings -/
+
+theorem lt_pow_sidLen (v : Nat) : v < 128 ^ sidLen v := by
+  induction v using Nat.strongRecOn with
+  | _ v ih =>
+    by_cases h : v = 0
+    · subst h; simp [sidLen_zero]
+    · rw [sidLen_pos h, Nat.add_comm, Nat.pow_succ]
+      have := ih (v / 128) (by omega)
+      omega
+
+theorem pow_sidLen_le {v : Nat} (h : v ≠ 0) : 128 ^ (sidLen v - 1) ≤ v := by
+  induction v using Nat.strongRecOn with
+  | _ v ih =>
+    rw [sidLen_pos h]
+    by_cases h2 : v / 128 = 0
+    · rw [h2, sidLen_zero]; simp; try omega
+    · have := ih (v / 128) (by omega) h2
+      rw [sidLen_pos h2] at this ⊢
+      simp only [Nat.add_sub_cancel_left] at this ⊢
+      rw [Nat.add_comm, Nat.pow_succ]
+      omega
+
+/-- scanning the continuation octets of an arc accumulates their value -/
+theorem scan_hi (n : Nat) : ∀ (w : Nat) (tail : List UInt8) (d1 : Nat) (out : List UInt8),
+    w < 128 ^ n → (n ≥ 1 → 128 ^ (n - 1) ≤ w) → w < 33554432 →
+    oidScan (sidHi n w ++ tail) 0 d1 out = oidScan tail w d1 out := by
+  induction n with
+  | zero =>
+    intro w tail d1 out h1 _ _
+    have : w = 0 := by simpa using h1
+    subst this; rfl
+  | succ n ih =>
+    intro w tail d1 out h1 h2 h3
+    have hge := h2 (by omega)
+    simp only [Nat.add_sub_cancel] at hge
+    rw [sidHi, List.append_assoc, ih (w / 128) _ d1 out
+      (by rw [Nat.pow_succ] at h1; exact (Nat.div_lt_iff_lt_mul (by omega)).mpr h1)
+      (by
+        intro hn
+        obtain ⟨m, rfl⟩ : ∃ m, n = m + 1 := ⟨n - 1, by omega⟩
+        simp only [Nat.add_sub_cancel]
+        rw [Nat.pow_succ] at hge
+        exact (Nat.le_div_iff_mul_le (by omega)).mpr hge)
+      (by omega)]
+    simp only [List.cons_append, List.nil_append]
+    rw [oidScan]
+    have hx : (oct (128 + w % 128)).toNat = 128 + w % 128 := by rw [toNat_oct]; omega
+    rw [if_neg (by omega), hx]
+    have hnz : ¬(w / 128 = 0 ∧ 128 + w % 128 = 128) := by
+      intro ⟨ha, hb⟩
+      have hw0 : w = 0 := by omega
+      have hpos : 0 < 128 ^ n := Nat.pow_pos (by omega)
+      omega
+    rw [if_neg hnz, if_neg (by omega)]
+    congr 1
+    omegaW
+
+/-- scanning one encoded arc from a clean state reaches the "arc complete" branch with its value -/
+theorem scan_arc (v : Nat) (hv : v < U32) (tail : List UInt8) (d1 : Nat) (out : List UInt8) :
+    oidScan (derSIDEnc v ++ tail) 0 d1 out =
+      if d1 = 3 then
+        oidScan tail 0 0 (out ++ derSIDDec (if v < 40 then 0 else if v < 80 then 1 else 2) ++ [46] ++
+          derSIDDec (if v < 40 then v else if v < 80 then v - 40 else v - 80))
+      else oidScan tail 0 d1 (out ++ [46] ++ derSIDDec v) := by
+  unfold derSIDEnc
+  have hw : v / 128 < 33554432 := by omegaW
+  have hcnt : (if v = 0 then 1 else sidLen v) - 1 = sidLen (v / 128) := by
+    by_cases h0 : v = 0
+    · subst h0; simp [sidLen_zero]
+    · rw [if_neg h0, sidLen_pos h0]; omega
+  simp only []
+  rw [hcnt, List.append_assoc, scan_hi (sidLen (v / 128)) (v / 128) _ d1 out (lt_pow_sidLen _)
+    (by
+      intro hn
+      apply pow_sidLen_le
+      intro hz; rw [hz, sidLen_zero] at hn; omega) hw]
+  simp only [List.cons_append, List.nil_append]
+  rw [oidScan]
+  have hx : (oct (v % 128)).toNat = v % 128 := by rw [toNat_oct]; omega
+  rw [if_neg (by omega), hx, if_neg (by omega), if_pos (by omega)]
+  have hm : (v / 128 * 128 + v % 128 % 128) % U32 = v := by omegaW
+  rw [hm]
+
 
 end Bee2V.C08
